@@ -304,12 +304,19 @@ void add_type(Node *node) {
       error_tok(node->cas_old->tok, "pointer expected");
     if (is_numeric(node->cas_addr->ty->base))
       node->cas_new = new_cast(node->cas_new, node->cas_addr->ty->base);
+    else if (node->cas_addr->ty->base->kind != TY_PTR &&
+             (!is_compatible(node->cas_addr->ty->base, node->cas_new->ty) ||
+              !is_compatible(node->cas_addr->ty->base, node->cas_old->ty->base)))
+      error_tok(node->cas_new->tok, "incompatible operand types");
     return;
   case ND_EXCH:
     if (node->lhs->ty->kind != TY_PTR)
       error_tok(node->lhs->tok, "pointer expected");
     if (is_numeric(node->lhs->ty->base))
       node->rhs = new_cast(node->rhs, node->lhs->ty->base);
+    else if (node->lhs->ty->base->kind != TY_PTR &&
+             !is_compatible(node->lhs->ty->base, node->rhs->ty))
+      error_tok(node->rhs->tok, "incompatible operand types");
     node->ty = node->lhs->ty->base;
     return;
   }
